@@ -210,3 +210,29 @@ prop(
                  "btree columns store values through the same table code with an empty key tail (covered by C04's histories)"],
     explanation="slot forms, byte codec, chain writer/reader and tier choice modelled with the constants regenerated from table.rs/column.rs; round trips proved for every length",
 )
+
+MT_RULE = ("multitree histories: column 0 multitree (plain / counted / append-only, direct node access), column 1 plain hash; 3-7 root keys each used for one "
+           "tree life; trees of depth <= 3, fan-out 0-12 (one in 40 roots with 256-300 children, which must be rejected), a quarter of the children given as EXISTING "
+           "nodes of live trees (named by a path from a live root, the same node possibly several times); transactions of 1-3 operations mixing InsertTree / "
+           "ReferenceTree / DereferenceTree with plain sets and removals and, rarely, an invalid operation; steps {commit, process, flush, enact, clean, reopen, take / "
+           "release the read lock of a live tree's reader}; two thirds of the histories end by dereferencing every live tree, drain and reopen. After EVERY step every "
+           "root is traversed through get_root / get_node and dumped canonically (nodes numbered by first visit, so sharing is visible), the plain column is read, and "
+           "after a reopen the entry count of the multitree column is taken. Non-trivial: the history shares nodes between trees or dereferences a tree while its lock is held")
+prop(
+    id="C10", module="Properties.C10", vfile="Properties/C10.v", level="proof", subcmd="c10",
+    theorems=["C10_node_pack_roundtrip", "C10_unrepresentable_rejected"],
+    counts={"quick": 1600, "thorough": 60000, "search": 6400},
+    rule=MT_RULE,
+    assumptions=["node identities are abstract in the model (the code's addresses): observations are compared after canonical renumbering, existing children are named by paths",
+                 "the slot allocator (claim_entries) is not modelled; its effects are visible only through the entry count, see known finding F7"],
+    explanation="multitree model with abstract node identities, commit-time preparation, counted sharing, recursive dereference; node packing proved; tie by full traversals after every step",
+)
+prop(
+    id="C11", module="Properties.C11", vfile="Properties/C11.v", level="proof", subcmd="c10",
+    theorems=["C11_locked_tree_stable", "C11_order_preserved_refuted"],
+    counts={"quick": 1600, "thorough": 60000, "search": 6400},
+    rule=MT_RULE + "; the C11 oracle additionally snapshots a tree when its lock is taken and demands the identical traversal at every step until the lock is released, "
+         "and demands that the plain column always equals the fold of the accepted transactions in commit order",
+    assumptions=["locks are taken and released between pipeline steps by the harness thread (stepping API); instruction-level interleavings of lock acquisition with the log worker are outside the model (C05)"],
+    explanation="deferral modelled as in defer_commit (re-queue at the back under a new identity, overlay re-copied); stability of a locked tree proved; order preservation REFUTED with a witness (finding F4)",
+)
